@@ -1180,6 +1180,33 @@ def _corpus_no_exception(model, extra):
     return {"confirmed": False, "bounded": True, "bound": f"{n} (program, trait selection) pairs"}
 
 
+@mirror("generated_no_exception")
+def _generated_no_exception(model, extra):
+    """bounded stand-in for C03: optimize returns (raises nothing) on a fixed sample of the schema-generated programs of
+    every trait, under that trait alone, under the default selection and under all traits"""
+    from native.gen import GENERATORS, sample
+    from native.mirrors import TRAITS as _T
+    from native.witnesses import optimise
+
+    per = int(extra.get("n", 40)) if extra.get("tier") != "thorough" else 0
+    n = 0
+    for trait in GENERATORS:
+        for prg, _f in sample(trait, per, int(extra.get("seed", 0))):
+            for traits in ([trait], [t for t in _T if t != "duplication"], list(_T)):
+                n += 1
+                try:
+                    optimise(prg, traits)
+                except RuntimeError as e:
+                    if "syntax error" in str(e) or "parsing failed" in str(e):
+                        continue  # not a valid program: not a test
+                    return {"confirmed": True, "bounded": True, "program": prg, "traits": traits, "exception": repr(e)}
+                except Exception as e:  # pylint: disable=broad-except
+                    import traceback
+
+                    return {"confirmed": True, "bounded": True, "program": prg, "traits": traits, "exception": repr(e), "where": traceback.format_exc().strip().splitlines()[-3:]}
+    return {"confirmed": False, "bounded": True, "bound": f"{n} (schema-generated program, trait selection) pairs"}
+
+
 @mirror("domain_predicate_names")
 def _domain_predicate_names(model, extra):
     """black-box: request sequences against freshness / memoisation of DomainPredicates' name factory"""
